@@ -472,6 +472,30 @@ class AModel(Model):
             st.emit('EXISTS', tuple(args[:1]), line, val=v)
             st.facts.setdefault('existsof', {})[v] = args[0] if args else None
             return [R(st, v)]
+        if full in ('os.path.isdir', 'os.path.isfile', 'os.path.lexists') and args:
+            # "is there (a directory / a file) at p": the same question as exists for the rules that ask whether absence was established
+            p_ = args[0]
+            if p_[0] == 'call' and p_[1] == ('lib', 'os.path.join') and len(p_[2]) == 2 and p_[2][1] == C(''):
+                p_ = p_[2][0]          # join(p, '') is p (resolving a link at p)
+            v = ('ev', 'exists', self.newid())
+            st.emit('EXISTS', (p_,), line, val=v)
+            st.facts.setdefault('existsof', {})[v] = p_
+            return [R(st, v)]
+        if full in ('os.listdir', 'os.scandir') and args:
+            # every name in the directory (no pattern): a listing of the store when the directory is the archive root.  fnmatch on an element narrows it
+            v = ('ev', 'list', self.newid())
+            st.emit('LIST', (args[0],), line, val=v, extra={'via': full})
+            return [R(st, v)]
+        if full in ('fnmatch.fnmatch', 'fnmatch.fnmatchcase') and len(args) == 2:
+            # for entry in os.scandir(root): if fnmatch(entry.name, pattern): ...   is the listing of root by that pattern
+            ids = [t[1] for t in subterms(args[0]) if t[0] == 'iter' and isinstance(t[1], tuple) and t[1][:2] == ('ev', 'list')]
+            if ids:
+                evs = list(st.events)
+                for i_, e_ in enumerate(evs):
+                    if e_.kind == 'LIST' and e_.val == ids[0] and len(e_.args) == 1:
+                        evs[i_] = type(e_)(e_.kind, e_.args + (args[1],), e_.line, e_.loop, e_.val, e_.depth, dict(e_.extra or {}, via='scandir+fnmatch'))
+                st.events = tuple(evs)
+            return None
         if full in ('os.remove', 'os.unlink'):
             return self.prim(st, 'UNLINK', tuple(args[:1]), line, IO_TOKENS)
         if full in ('os.rename', 'os.renames', 'os.replace', 'shutil.move'):
@@ -641,9 +665,100 @@ class AModel(Model):
         if f[0] == 'lib' and full.startswith('func:'):
             fi = self.module.functions.get(full[5:])
             if fi is not None and (any(a == SELF for a in args) or full[5:] not in ('_to_frame', '_from_frame')):
+                summ = self.storage_helper_summary(fi.node, args, kws, st, line)
+                if summ is not None:
+                    return summ
                 # helper functions of the module are part of the code under analysis (e.g. a shared serializer/mode selector)
                 return self.engine.inline(fi.node, full[5:], {}, args, kws, st, node)
         return None
+
+    def storage_helper_summary(self, fn, args, kws, st, line):
+        """A module-level helper that wraps one storage primitive the way the pox functions do is that primitive (wrappers are recognised by what all their
+        paths do, not by name):
+          lister   - enumerates its first parameter with os.scandir / os.listdir and keeps the names that fnmatch its second parameter  -> LIST(root, pattern)
+          remover  - shutil.rmtree of its first parameter, or (flag parameter `self` false) of every directory listed in it             -> RMTREE(path, self)
+          maker    - os.makedirs / os.mkdir of join(<root parameter or cwd>, first parameter), returning the path                         -> MKDIR(join(root, path))
+        Anything else is inlined as written."""
+        a = fn.args
+        pnames = [x.arg for x in a.posonlyargs + a.args]
+        if not pnames or a.vararg or a.kwarg:
+            return None
+        calls = {}
+        for x in ast.walk(fn):
+            if isinstance(x, ast.Call):
+                nm = x.func.attr if isinstance(x.func, ast.Attribute) else x.func.id if isinstance(x.func, ast.Name) else None
+                calls.setdefault(nm, []).append(x)
+        if any(isinstance(x, (ast.FunctionDef, ast.Lambda, ast.ClassDef)) for x in ast.walk(fn) if x is not fn):
+            return None
+        # bind the call's arguments to parameter names (defaults as written)
+        bound = {}
+        dflt = dict(zip(pnames[len(pnames) - len(a.defaults):], a.defaults))
+        for i, v in enumerate(args):
+            if v[0] == 'star' or i >= len(pnames):
+                return None
+            bound[pnames[i]] = v
+        for k in kws:
+            if k[0] != 'kw' or k[1] not in pnames:
+                return None
+            bound[k[1]] = k[2]
+        for pn in pnames:
+            if pn not in bound:
+                dv = dflt.get(pn)
+                if not isinstance(dv, ast.Constant):
+                    return None
+                bound[pn] = C(dv.value)
+        first = pnames[0]
+
+        def names_in(x):
+            return set(y.id for y in ast.walk(x) if isinstance(y, ast.Name))
+        writers = set(calls) & set(['rmtree', 'remove', 'unlink', 'rmdir', 'makedirs', 'mkdir', 'rename', 'replace', 'renames', 'open', 'copytree', 'move'])
+        # ---- lister
+        listing = calls.get('scandir', []) + calls.get('listdir', [])
+        if listing and not writers and len(pnames) >= 2 and all(c.args and names_in(c.args[0]) == set([first]) and isinstance(c.args[0], ast.Name) for c in listing):
+            fm = calls.get('fnmatch', []) + calls.get('fnmatchcase', [])
+            if fm and all(len(c.args) == 2 and isinstance(c.args[1], ast.Name) and c.args[1].id == pnames[1] for c in fm):
+                v = ('ev', 'list', self.newid())
+                st.emit('LIST', (bound[first], bound[pnames[1]]), line, val=v, extra={'via': 'helper:%s' % fn.name})
+                return [R(st, v)]
+        # ---- remover
+        if 'rmtree' in calls and not (writers - set(['rmtree'])) and all(c.args and first in names_in(c.args[0]) | self._derived_names(fn, first) for c in calls['rmtree']):
+            flag = bound.get('self', C(True)) if 'self' in pnames else C(True)
+            ig = all(any(k.arg == 'ignore_errors' and isinstance(k.value, ast.Constant) and k.value.value is True for k in c.keywords) for c in calls['rmtree'])
+            return self.prim(st, 'RMTREE', (bound[first], flag), line, [] if ig else IO_TOKENS)
+        # ---- maker
+        mk = calls.get('makedirs', []) + calls.get('mkdir', [])
+        if mk and not (writers - set(['makedirs', 'mkdir'])) and not listing and not any(isinstance(x, ast.Try) for x in ast.walk(fn)):
+            # (a maker that handles the failure itself - try: mkdir ... except OSError: return abspath - is inlined as written)
+            rets = [x for x in ast.walk(fn) if isinstance(x, ast.Return) and x.value is not None]
+            root = bound.get('root') if 'root' in pnames else None
+            p_ = ('call', ('lib', 'os.path.join'), (root, bound[first]), ()) if root is not None and root != NONE else bound[first]
+            absolute = bool(calls.get('abspath') or calls.get('realpath'))
+            parents = bool(calls.get('makedirs'))
+            rv = NONE
+            if rets:
+                rv = p_ if (root is not None and root != NONE) or not absolute else ('call', ('lib', 'os.path.abspath'), (p_,), ())
+                if not absolute and (root is None or root == NONE):
+                    rv = p_
+            return self.prim(st, 'MKDIR', (p_,), line, IO_TOKENS, val=rv, extra={'via': 'helper:%s' % fn.name, 'parents': parents})
+        return None
+
+    @staticmethod
+    def _derived_names(fn, first):
+        """names assigned (directly or through a loop over a listing) from expressions that mention `first`"""
+        out = set([first])
+        changed = True
+        while changed:
+            changed = False
+            for x in ast.walk(fn):
+                tgt, srcs = None, None
+                if isinstance(x, ast.Assign) and len(x.targets) == 1 and isinstance(x.targets[0], ast.Name):
+                    tgt, srcs = x.targets[0].id, x.value
+                elif isinstance(x, ast.For) and isinstance(x.target, ast.Name):
+                    tgt, srcs = x.target.id, x.iter
+                if tgt and tgt not in out and any(isinstance(y, ast.Name) and y.id in out for y in ast.walk(srcs)):
+                    out.add(tgt)
+                    changed = True
+        return out
 
     def truth(self, val, st, node):
         # `memo == None` on something that is certainly a dict
